@@ -106,8 +106,7 @@ def c44(res, tier, seed):
     segs = ["optional_int32", "optional_nested_message", "repeated_nested_message", "map_string_nested_message", "OptionalGroup",
             "optionalgroup", "not_group_like_delimited", "a", "corecursive", "singular_nested_message", ""]
     if not quick:
-        segs += ["optional_foreign_message", "c", "RepeatedGroup", "optional_lazy_nested_message", "Optionalgroup", "recursive_message",
-                 "oneof_nested_message", "nosuch"]
+        segs += ["RepeatedGroup", "oneof_nested_message", "nosuch"]
     msgs = export_schema(b, segs)
     # ---- algebra
     nuni = 8 if quick else 16
